@@ -118,6 +118,10 @@ def _setup(config, custom, n_grains, n_steps, frame=None):
             m.fractions.append(f)
         ms.append(m)
         data[name] = snaps
+    if custom:
+        # an earlier call in the same process with another record of the same class (the built-in values) must not
+        # leak into this one: no state is shared between calls
+        minerals.voigt_averages(ms, [getattr(P, a) for a in assemblage], [phis[a] for a in assemblage], _real_stiffness())
     out = minerals.voigt_averages(ms, [getattr(P, a) for a in assemblage], [phis[a] for a in assemblage], st)
     return out, order, data, phis, stiff, quats
 
@@ -170,7 +174,7 @@ def t_average(sess, config, custom, n_grains, n_steps):
                       "cls": {"kind": "Voigt average is not the phase-indexed volume-weighted sum of rotated tensors", "assemblage": list(CONFIGS[config][0])}}
                 if not bad:
                     bad = name
-                    ce["replay"] = "vf.props.C10:replay_average"
+                    ce["replay"] = "vf.props.C10:replay_generic" if custom else "vf.props.C10:replay_average"
                 else:
                     ce["same_as"] = bad
                 sess.cex.append(ce)
@@ -261,7 +265,10 @@ def replay_average(case):
                 rot = np.einsum("ia,jb,kc,ld,abcd->ijkl", Rm, Rm, Rm, Rm, T)
                 want += np.array([[rot[a, b, c, d] for (c, d) in PAIRS] for (a, b) in PAIRS]) * m.fractions[k][g] * fr[asm.index(m.phase)]
         worst = max(worst, float(np.abs(out[k] - want).max()))
-    return {"reproduced": bool(worst > 1e-8), "detail": {"max_abs_difference_GPa": worst}}
+    if worst > 1e-8:
+        return {"reproduced": True, "detail": {"max_abs_difference_GPa": worst}}
+    # nothing on this configuration: the wider sweep (custom tensors after built-in ones, 1-3 minerals, mismatches)
+    return replay_generic(case)
 
 
 def t_aligned_grain(sess):
